@@ -151,9 +151,14 @@ _list_sorts = {}
 def _list_sort(elem):
     key = elem.name
     if key not in _list_sorts:
-        d = z3.Datatype("List_" + _mangle(key))
-        d.declare("mklist", ("llen", z3.IntSort()), ("larr", z3.ArraySort(z3.IntSort(), elem.sort())))
-        _list_sorts[key] = d.create()
+        m = _mangle(key)
+        d = z3.Datatype("List_" + m)
+        d.declare("mklist_" + m, ("llen_" + m, z3.IntSort()), ("larr_" + m, z3.ArraySort(z3.IntSort(), elem.sort())))
+        srt = d.create()
+        srt.mklist = srt.constructor(0)
+        srt.llen = srt.accessor(0, 0)
+        srt.larr = srt.accessor(0, 1)
+        _list_sorts[key] = srt
     return _list_sorts[key]
 
 
@@ -219,10 +224,18 @@ class Opt(Kind):
 
     def sort(self):
         if self.name not in _opt_sorts:
-            d = z3.Datatype("Opt_" + _mangle(self.inner.name))
-            d.declare("none")
-            d.declare("some", ("get", self.inner.sort()))
-            _opt_sorts[self.name] = d.create()
+            m = _mangle(self.inner.name)
+            d = z3.Datatype("Opt_" + m)
+            d.declare("none_" + m)
+            d.declare("some_" + m, ("get_" + m, self.inner.sort()))
+            srt = d.create()
+            # constructor names are unique per sort (SMT-LIB text must be unambiguous);
+            # Python-side aliases keep the short names
+            srt.none = srt.constructor(0)()
+            srt.some = srt.constructor(1)
+            srt.is_none = srt.recognizer(0)
+            srt.get = srt.accessor(1, 0)
+            _opt_sorts[self.name] = srt
         return _opt_sorts[self.name]
 
     def wrap(self, t):
@@ -584,8 +597,9 @@ class TupleKey(Kind):
     def sort(self):
         if self._sort is None:
             d = z3.Datatype("TK_" + _mangle(self.name))
-            d.declare("mk", *[(f"{_mangle(self.name)}_{n}", k.sort()) for n, k in self.fields])
+            d.declare("mk_" + _mangle(self.name), *[(f"{_mangle(self.name)}_{n}", k.sort()) for n, k in self.fields])
             self._sort = d.create()
+            self._sort.mk = self._sort.constructor(0)
         return self._sort
 
     def wrap(self, t):
@@ -629,3 +643,39 @@ class Abstract(Kind):
     def method_fn(self, m):
         spec = self.methods[m]
         return z3.Function(f"{self.name}.{m}()", self.sort(), spec[1].sort())
+
+
+
+class TotalMapOf(Kind):
+    """an immutable snapshot of a collections.defaultdict: a total function
+    key -> value (missing keys read as the factory's empty value)"""
+
+    def __init__(self, key, val):
+        self.key, self.val = key, val
+        self.name = f"total[{key.name},{val.name}]"
+
+    def sort(self):
+        return z3.ArraySort(self.key.sort(), self.val.sort())
+
+    def wrap(self, t):
+        return VTotalMap(self.key, self.val, t)
+
+
+class VTotalMap(V):
+    def __init__(self, key, val, t):
+        self.key, self.val, self.t = key, val, t
+        self.kind = TotalMapOf(key, val)
+
+    def get(self, k):
+        return self.val.wrap(z3.Select(self.t, k.t))
+
+    def put(self, k, v):
+        return VTotalMap(self.key, self.val, z3.Store(self.t, k.t, v.t))
+
+
+class VEmptyDefault(V):
+    """collections.defaultdict(factory) before its kinds are known"""
+    kind = None
+
+    def __init__(self, factory):
+        self.factory = factory
